@@ -448,7 +448,7 @@ pub fn check(ctx: &mut Ctx) -> i32 {
         }
     }
     ctx.max_shrink_iters = 300;
-    let n = ctx.by(50, 1200);
+    let n = ctx.by(50, 3000);
     if let Some(f) = explore(ctx, &acc, "l3-pipelines", "pipe", &strategy, n, ctx.workers, |c: &PipeCase| run_case(c, prop)) {
         report_violation(ctx, "pipe", &serde_json::to_value(&f.case).unwrap(), &f.fail);
         write_evidence(ctx, &acc, RULE, ASSUME, 1);
